@@ -1447,7 +1447,8 @@ class Config:  # pylint: disable=too-many-instance-attributes
             # For each of the included field names, check if it has a value in the parsed tree
             # and, if it does, load the included file and combine it with the existing tree.
             filename = tree.get(key)
-            if filename is None:
+            if filename is None or filename == "":
+                # an empty path names no file: nothing to include
                 continue
 
             # All included config files must have the same file format (you can't include XML from
